@@ -466,6 +466,57 @@ def rule_wexpect(roles):
     return first
 
 
+def _option_text_cmp(roles, e, tc, sides):
+    """`token.text() == Some(expected)`: an Option<&str> comparison between the result of a text accessor of the token
+    (every `Some` it returns is the text field of the token's own variant) and `Some(<the &str parameter>)`.  The kinds it
+    can be true for are the variants the dominating switch on the token's discriminant lets through."""
+    prog = roles.prog
+    if 'std::option::Option<' not in (tc.rdef or '') and 'std::option::Option<' not in ((tc.fn or {}).get('path') or ''):
+        return None
+    so = [single_origin(x) for x in sides]
+    if any(o is None for o in so):
+        return None
+    some = [k for k, o in enumerate(so) if o.kind == 'agg' and not o.proj and o.data[2].get('variant') == 'Some' and len(o.data[2]['ops']) == 1]
+    if len(some) != 1:
+        return None
+    inner = trace_operand(e, so[some[0]].data[2]['ops'][0], through_calls=THROUGH)
+    if not any(o.kind == 'param' and o.data == 2 for o in inner):
+        return None
+    acc = so[1 - some[0]]
+    if acc.kind != 'callres' or acc.proj or acc.data.ruid is None or len(acc.data.args) != 1:
+        return None
+    g = prog.by_id.get(acc.data.ruid)
+    if g is None or not g.locals[0]['ty'].startswith('std::option::Option<&') or 'str' not in g.locals[0]['ty'] or not roles.token_adt or roles.token_adt not in g.locals[1]['ty']:
+        return None
+    # the accessor returns the token's own text
+    for o in trace_local(g, 0, (('dc', 'Some'), ('f', 0)), through_calls=set()):
+        if not (o.kind == 'param' and o.data == 1 and len(o.proj) >= 2 and o.proj[-2][0] == 'dc' and o.proj[-1] == ('f', 0)):
+            return (False, ['accessor %s returns something other than the token text' % g.name.split('::')[-1]])
+    tok = {(o.kind, o.key()[1], o.proj) for o in trace_operand(e, acc.data.args[0], through_calls=THROUGH)}
+    adt = prog.f.adt_by_name.get(roles.token_adt)
+    names = [v['name'] for v in adt['variants']] if adt else []
+    kinds = None
+    du = defuse(e)
+    for sb in sorted(e.live_blocks):
+        t = e.blocks[sb]['term']
+        if t['k'] != 'switch':
+            continue
+        dl = op_local(t['discr'])
+        defs = du.defs.get(dl, []) if dl is not None else []
+        if len(defs) != 1 or defs[0][2] != 'assign' or defs[0][3]['k'] != 'discr' or defs[0][3]['pl']['p']:
+            continue
+        if {(o.kind, o.key()[1], o.proj) for o in trace_local(e, defs[0][3]['pl']['l'], (), through_calls=THROUGH)} != tok:
+            continue
+        for v, tb in t['targets']:
+            if edge_dominates(e, sb, tb, acc.data.bb):
+                vs = {names[x] for x, y in t['targets'] if y == tb and x < len(names)}
+                kinds = vs if kinds is None else (kinds & vs)
+    if kinds is None:
+        return (False, ['no variant discrimination'])
+    allowed = {'Operator', 'Delim', 'Comma', 'Semicolon'}
+    return (bool(kinds) and kinds <= allowed, sorted(kinds))
+
+
 def _rule_wexpect(roles, e):
     obs = []
     # comparisons between the inspected token's payload and the &str parameter
@@ -478,6 +529,9 @@ def _rule_wexpect(roles, e):
         sides = [trace_operand(e, a, through_calls=THROUGH | {'std::string::ToString::to_string'}) for a in tc.args[:2]]
         is_param = [any(o.kind == 'param' and o.data == 2 for o in s) for s in sides]
         if not any(is_param):
+            oq = _option_text_cmp(roles, e, tc, sides)
+            if oq is not None:
+                return oq
             return None
         # the token side must be the payload of a punctuation-kind variant (extracted under a
         # downcast), possibly rendered by a local helper of that payload
